@@ -7,14 +7,7 @@ try:
     print('numpy', numpy.__version__, 'scipy', scipy.__version__)
 except Exception as e:
     print('missing numeric stack:', e); ok = False
-try:
-    import hypothesis
-    print('hypothesis', hypothesis.__version__)
-except Exception:
-    import subprocess
-    r = subprocess.run([sys.executable, '-m', 'pip', 'install', '--no-index', '--find-links', '/opt/veriftools/wheels', 'hypothesis'], capture_output=True, text=True)
-    print(r.stdout[-300:], r.stderr[-300:])
-    ok = ok and r.returncode == 0
+# (hypothesis is not needed: the C05 history world uses its own seeded generator, see DESIGN §3.4)
 here = os.path.dirname(os.path.dirname(os.path.abspath(__file__)))
 sys.path.insert(0, here)
 os.environ.setdefault('BCT_REPO', '/repo')
